@@ -29,6 +29,10 @@ pub open spec fn atomic_inv(w: World) -> bool {
             (#[trigger] w.fs.dom().contains(p) == w.orig.dom().contains(p)) && (w.fs.dom().contains(p) ==> w.fs[p] == w.orig[p])
 }
 
+// [C02] write-ahead: when the lock file is in use it already records, durably, a next ID >= w.counter (every ID handed out so far),
+// so that a kill right after the next operation cannot lose the reservation.  Nothing in the code establishes this before a
+// source file is replaced (the lock is written after all files): the obligation at `rename` is a KNOWN FINDING (known_findings.json).
+pub uninterp spec fn lock_covers(w: World) -> bool;
 // whether this run's write of the lock file failed (reported as warning [ref: 33]/[ref: 34])
 pub uninterp spec fn lock_write_failed() -> bool;
 
@@ -244,6 +248,7 @@ pub mod async_std {
                 is_temp(from@) && old(w).fs.dom().contains(from@), // [C07.source]
                 old(w).protected.contains(to@), // [C15.target]
                 old(w).intended.dom().contains(to@) && old(w).fs[from@] == old(w).intended[to@], // [C07.complete]
+                lock_covers(*old(w)), // [C02.writeahead]
             ensures
                 r.is_ok() ==> final(w).fs == old(w).fs.remove(from@).insert(to@, old(w).fs[from@]),
                 r.is_err() ==> final(w).fs == old(w).fs,
